@@ -89,6 +89,11 @@ MARK_ALPHA = "QXJVZK"
 
 def marker(i, rng=None):
     """A unique upper-case word over {Q,X,J,V,Z,K}, length 6, for id i (base-6 digits)."""
+    if i >= 500:
+        # a second family of foreign words, with the letters 'PM' inside (as in 'development', 'equipment': known
+        # finding F16 - the principal-meridian pattern must not read them)
+        n = i - 500
+        return "Q" + MARK_ALPHA[(n // 6) % 6] + "PM" + MARK_ALPHA[n % 6] + MARK_ALPHA[(n // 36) % 6]
     s = ""
     n = i
     for _ in range(5):
